@@ -15,9 +15,17 @@ class Msg:
         else:
             nchars = rng.randint(n, max(n, min(170, 30 * n)))
             bits = gen.payload_bits(rng, 'MessageType8', length=6 * nchars - rng.randint(0, 5))
-            payload, _ = gen.armor(bits)
+            payload, fill = gen.armor(bits)
             cuts = sorted(rng.sample(range(1, len(payload)), n - 1)) if n > 1 else []
             self.lines = gen.render(bits, seq=seq, chan=chan, cuts=cuts)
+            if n > 1 and rng.random() < 0.12:
+                # a last fragment with an EMPTY payload (the whole payload travels in the fragments before it):
+                # a very short but complete sentence, e.g. `!AIVDM,2,2,,A,,0*26`
+                cuts2 = sorted(rng.sample(range(1, len(payload)), n - 2)) if n > 2 else []
+                pts = [0] + cuts2 + [len(payload)]
+                chunks = [payload[a:b] for a, b in zip(pts, pts[1:])] + ['']
+                self.lines = [gen.sentence('AIVDM', n, i + 1, seq, chan, c, fill if i == n - 2 else 0)
+                              for i, c in enumerate(chunks)]
         self.valid = [True] * n
         if corrupt:
             i = rng.randrange(n)
@@ -141,7 +149,7 @@ class Prop:
     def run(self, ctx):
         rng = ctx.rng('c03')
         cases = self.configs(rng, ctx.tier) + self.random_schedules(rng, 300 if ctx.tier == 'quick' else 6000)
-        for fe in ('iter', 'queue'):
+        for fe in ('iter', 'queue', 'bytestream'):
             ops = ['stream %s 0 %s' % (fe, ' '.join(m.lines[i].hex() for m, i in sched)) for _, sched in cases]
             outs = ctx.corr(ops, impl.step, 'stream-' + fe, nontrivial=lambda l, o: '0a21' in o)
             for (label, sched), o in zip(cases, outs):
